@@ -7,6 +7,7 @@
    is DEADLOCKED when some thread is unfinished and no unfinished thread can be granted its
    request (RWMutex exclusion; a thread's own holds count, sync.RWMutex is not re-entrant). *)
 From Avfs Require Import Base Sched MemConc Lin ExclMkdir DeadlockFree Traces Witness LockProg.
+From Avfs Require OrefaInv OrefaWorld OrefaTotal.   (* sequential part; not imported: names are qualified below *)
 
 (* ---- concurrent ------------------------------------------------------------------------- *)
 
@@ -85,10 +86,33 @@ Proof. exact orefa_rename_mkdir_deadlock. Qed.
 
 (* Link (file, new parent, index) against Remove (index, parent, child) *)
 Theorem C07_refuted_orefa_link_remove :
-  lp_reaches_deadlock [orefa_link_af_bx; orefa_remove_a_f] [0; 0; 0; 1; 1] = true.
+  lp_reaches_deadlock [orefa_link_af_bx; orefa_remove_a_f] [0; 0; 0; 0; 0; 1; 1] = true.
 Proof. exact orefa_link_remove_deadlock. Qed.
 
 (* two opposite cross-directory OrefaFS Renames *)
 Theorem C07_refuted_orefa_rename_rename :
   lp_reaches_deadlock [orefa_rename_bg_ax; orefa_rename_af_bx] [0; 1; 0; 1] = true.
 Proof. exact orefa_rename_rename_deadlock. Qed.
+
+
+(* ===================================================================================
+   SEQUENTIAL PART (totality: no Panic, no Deadlock, no OutOfFuel outcome)
+   ===================================================================================
+   Restatements of theorems proved in Fs/*Total.v about the sequential world models (which have
+   explicit RPanic / RDeadlock / EFuel results wherever the Go code could index out of range, lock
+   a node twice or loop); tied to the code by the `fs` and `orefa` streams of the check, in which
+   the implementation itself must never answer PANIC or DEADLOCK. *)
+
+(* OrefaFS: on a well-formed world, with every view / handle index in range, ANY call with ANY
+   arguments (arbitrary byte strings as paths, any flags, sizes, offsets, closed handles) returns
+   a result that is neither a panic, nor a deadlock, nor an exhausted loop *)
+Theorem C07_orefa_total : forall w c,
+  OrefaInv.orefa_inv (OrefaWorld.ow_fs w) -> OrefaTotal.handles_ok w -> OrefaTotal.call_in_range w c ->
+  OrefaTotal.res_ok (snd (OrefaWorld.ostep w c)).
+Proof. exact OrefaTotal.C07_orefa_total. Qed.
+
+(* ... hence every result of every history from the initial Linux world *)
+Theorem C07_orefa_run : forall um cs,
+  OrefaTotal.run_ok (OrefaWorld.o_init_world_linux um) cs ->
+  Forall OrefaTotal.res_ok (snd (OrefaWorld.orun (OrefaWorld.o_init_world_linux um) cs)).
+Proof. exact OrefaTotal.C07_orefa_run. Qed.
